@@ -66,7 +66,7 @@ CHECKS = {
  "C18": dict(
     level=("other", "Deductive: for any number of parameters the slot list of the real _auto_param_indices (blocked range = the class constant in the "
             "current source) is strictly increasing, 1..9 first, never PAR(11)..PAR(14). Bounded: the same natively for 0..N parameters and text-level "
-            "consistency of emitted files where available.", "5 C18"),
+            "consistency of emitted files; one export compiled with f2py, STPNT and FUNC called against the closed form.", "5 C18"),
     note="Trusted: pyvc encoding (exact integers); every caller passes the class constant.",
     technique="contract-based deductive verification (loop invariant over the slot allocator) + bounded native checks", engine="pyvc", rtc=True),
  "C20": dict(
